@@ -370,6 +370,15 @@ class World:
         raise RuntimeError("no quiescence")
 
 
+def settle_gc():
+    """collect cyclic garbage at a quiescent point and throw away whatever its finalizers scheduled (a RemoteReference
+    that dies sends `decref` through the module-level eventual queue); automatic collection is switched off by the
+    check so that no finalizer runs in the middle of a scenario"""
+    with E.quiet():
+        gc.collect()
+        E.reset_clock()
+
+
 def turn_pending():
     q = E.ev._theSimpleQueue
     return q._timer is not None and q._timer.active()
@@ -421,7 +430,6 @@ def run_scenario(script, final_quiesce=True):
             w.quiesce()
             obs.append(w.end_step())
         lost = [b.transport.lost for b in w.brokers]
-        nerr = len(E.logged_errors)
     return dict(obs=obs, ops=w.ops, events=w.events, issued=w.issued, results=w.results, errors=w.errors,
                 nsteps=nsteps, lost=lost)
 
@@ -525,7 +533,21 @@ def run_tubs(plan, rng, chunk_sizes, c_reachable=True):
                 E.turn()
             net.step(rng.choice(c), chunk(rng) if chunk else None)
             steps += 1
-        return dict(entered=list(tb.entered), results=results, steps=steps, gifts=list(tb.gifts))
+        out = dict(entered=list(tb.entered), results=results, steps=steps, gifts=list(tb.gifts))
+        # tear down: nothing of this run may fire into the next one
+        for t in (A, B, C):
+            try:
+                t.stopService()
+            except Exception:
+                pass
+        E.turn()
+        try:
+            net.run(rng, maxsteps=5000)
+        except RuntimeError:
+            pass
+        del got, rb, rc, A, B, C, net, tb, tc
+        settle_gc()
+        return out
 
 
 # ---------------------------------------------------------------------------------------------------------------
